@@ -85,6 +85,8 @@ Record state := mk_state {
   st_joliet : option vdesc;
   st_enhanced : option vdesc }.
 
+Definition opt_list {A} (o : option A) : list A := match o with Some x => [x] | None => [] end.
+
 (* str.startswith *)
 Fixpoint prefixb (p s : list Z) : bool :=
   match p, s with
@@ -189,11 +191,26 @@ Definition child_len (st : state) : Z :=
   | ChDir n => n | ChNoInode n => n | ChFile _ => st_ino_len st | ChNotFound => 0
   end.
 
-(* a volume descriptor write; the rest [k] continues with the writes so far *)
-Definition vd_write (lbs : Z) (v : vdesc) (now : list Z) : option write :=
-  match vd_record v now with
-  | Some b => Some (vd_extent v * lbs, b)
-  | None => None
+(* the volume descriptors the call re-records, in this order, after the in-memory size update:
+     child.inode.update_fp(fp, length)           -- from here on child.get_data_length() = length
+     for pvd in self.pvds: pvd.remove_from_space_size(child.get_data_length())
+     for pvd in self.pvds: pvd.add_to_space_size(length)
+     if self.enhanced_vd is not None: self.enhanced_vd.copy_sizes(self.pvd)
+   (the Joliet descriptor's size is adjusted inside the record loop, AFTER it has been written) *)
+Definition vds_after (st : state) (length : Z) : list vdesc :=
+  let pvd := vd_resize (st_lbs st) (st_pvd st) length length in
+  pvd :: opt_list (st_joliet st) ++ opt_list (option_map (fun v => vd_with_space v (vd_space pvd)) (st_enhanced st)).
+
+(* self._seek_to_extent(vd.extent_location()); self._cdfp.write(vd.record()) for each of them;
+   (writes issued, all records could be produced) *)
+Fixpoint vd_writes (lbs : Z) (now : list Z) (vs : list vdesc) : list write * bool :=
+  match vs with
+  | [] => ([], true)
+  | v :: r =>
+      match vd_record v now with
+      | None => ([], false)                       (* swab_32bit / struct.error *)
+      | Some b => let '(ws, ok) := vd_writes lbs now r in ((vd_extent v * lbs, b) :: ws, ok)
+      end
   end.
 
 Definition stopped (ws : list write) : outcome := match ws with [] => Refused | _ => Partial ws end.
@@ -210,32 +227,11 @@ Definition modify_run (st : state) (length : Z) (fp now : list Z) : outcome :=
     if negb (old_num_extents =? new_num_extents) then Refused else
     match st_child st with
     | ChFile extent =>
-        (* child.inode.update_fp(fp, length): from here on child.get_data_length() = length *)
-        let pvd := vd_resize lbs (st_pvd st) length length in
-        (* enhanced_vd.copy_sizes(self.pvd) *)
-        let enh := option_map (fun v => vd_with_space v (vd_space pvd)) (st_enhanced st) in
-        match vd_write lbs pvd now with
-        | None => Refused
-        | Some w1 =>
-          let ws1 := [w1] in
-          match (match st_joliet st with
-                 | None => Some ws1
-                 | Some j => option_map (fun w => ws1 ++ [w]) (vd_write lbs j now)
-                 end) with
-          | None => stopped ws1
-          | Some ws2 =>
-            match (match enh with
-                   | None => Some ws2
-                   | Some v => option_map (fun w => ws2 ++ [w]) (vd_write lbs v now)
-                   end) with
-            | None => stopped ws2
-            | Some ws3 =>
-                let ws4 := ws3 ++ data_writes lbs extent length fp in
-                let '(wl, ok) := relink lbs length (st_linked st) in
-                if ok then Done (ws4 ++ wl) else Partial (ws4 ++ wl)
-            end
-          end
-        end
+        let '(wv, okv) := vd_writes lbs now (vds_after st length) in
+        if negb okv then stopped wv else
+        let wd := data_writes lbs extent length fp in
+        let '(wl, ok) := relink lbs length (st_linked st) in
+        if ok then Done (wv ++ wd ++ wl) else Partial (wv ++ wd ++ wl)
     | _ => Refused          (* a directory; 'Child file found without inode' *)
     end
   end.
@@ -252,11 +248,10 @@ Definition lrec_after (length : Z) (l : lrec) : lrec :=
   | _ => l
   end.
 Definition state_after (st : state) (length : Z) : state :=
+  let pvd := vd_resize (st_lbs st) (st_pvd st) length length in
   mk_state (st_initialized st) (st_mode st) (st_lbs st) (st_child st) length
-           (map (lrec_after length) (st_linked st))
-           (vd_resize (st_lbs st) (st_pvd st) length length) (st_joliet st)
-           (option_map (fun v => vd_with_space v (vd_space (vd_resize (st_lbs st) (st_pvd st) length length)))
-                       (st_enhanced st)).
+           (map (lrec_after length) (st_linked st)) pvd (st_joliet st)
+           (option_map (fun v => vd_with_space v (vd_space pvd)) (st_enhanced st)).
 
 (* ---- well-formedness of (object graph, backing file) ---------------------------------------- *)
 Definition lrec_pos (lbs : Z) (l : lrec) : Z :=
@@ -326,7 +321,6 @@ Definition lrec_ival (lbs : Z) (l : lrec) : list ival :=
   | _, _ => []
   end.
 Definition vd_ival (lbs : Z) (v : vdesc) : ival := (vd_extent v * lbs, vd_extent v * lbs + 2048).
-Definition opt_list {A} (o : option A) : list A := match o with Some x => [x] | None => [] end.
 Definition vds (st : state) : list vdesc := st_pvd st :: opt_list (st_joliet st) ++ opt_list (st_enhanced st).
 Definition data_ival (st : state) : ival :=
   match st_child st with
